@@ -26,8 +26,9 @@ EXTENDS Naturals, Sequences, FiniteSets, TLC, ClauseLib, Json, IOUtils, TLCExt
 
 Classes == {"none", "pri.flags", "pri.src", "pri.rpt", "pri.ts", "pri.lifetime", "pri.crc", "tgt.flags", "tgt.crc",
             "tgt.data", "tgt.num", "tgt.type", "sec.flags", "sec.num", "other.meta", "other.data", "sec.source",
-            "sec.scope", "sec.protected", "res.tag", "res.alg", "res.kid", "tgt.data+attached"}
-Primary == {"pri.flags", "pri.src", "pri.rpt", "pri.ts", "pri.lifetime", "pri.crc"}
+            "sec.scope", "sec.protected", "res.tag", "res.alg", "res.kid", "tgt.data+attached",
+            "pri.flags.rsv", "tgt.flags.rsv"}   \* .rsv: a flag bit that has no assigned meaning
+Primary == {"pri.flags", "pri.src", "pri.rpt", "pri.ts", "pri.lifetime", "pri.crc", "pri.flags.rsv"}
 Scopes == [pri_meta : BOOLEAN, tgt_meta : BOOLEAN, tgt_btsd : BOOLEAN, sec_meta : BOOLEAN, oth_meta : BOOLEAN,
            oth_btsd : BOOLEAN]
 
@@ -37,7 +38,7 @@ Covered(cls, scope) ==
   \/ cls = "tgt.data+attached"   \* altered content with the genuine content embedded in the (to be detached) COSE payload
   \/ cls = "res.kid"                          \* not authenticated, but it selects the key: a wrong key must fail
   \/ cls \in Primary /\ scope.pri_meta
-  \/ cls \in {"tgt.type", "tgt.num", "tgt.flags"} /\ scope.tgt_meta
+  \/ cls \in {"tgt.type", "tgt.num", "tgt.flags", "tgt.flags.rsv"} /\ scope.tgt_meta
   \/ cls \in {"sec.flags", "sec.num"} /\ scope.sec_meta
   \/ cls = "other.meta" /\ scope.oth_meta
   \/ cls = "other.data" /\ scope.oth_btsd
@@ -55,8 +56,12 @@ CodeBinds(cls, scope) ==
   \/ cls = "sec.protected" /\ "aad_without_protected" \notin Dev
   \/ cls \in {"res.tag", "res.alg"}                                            \* the tag itself / protected header
   \/ cls = "res.kid"                                                           \* key lookup fails
+  \* the AAD is built from the re-encoded decoded fields: what decoding drops is not bound (deviation: flag
+  \* bits without a name are masked away on decode)
   \/ cls \in Primary /\ scope.pri_meta /\ "aad_without_primary" \notin Dev      \* bytes(primary), CRC included
-  \/ cls \in {"tgt.type", "tgt.num", "tgt.flags"} /\ scope.tgt_meta /\ "aad_without_target_meta" \notin Dev
+       /\ ~(cls = "pri.flags.rsv" /\ "decode_masks_unnamed_flags" \in Dev)
+  \/ cls \in {"tgt.type", "tgt.num", "tgt.flags", "tgt.flags.rsv"} /\ scope.tgt_meta /\ "aad_without_target_meta" \notin Dev
+       /\ ~(cls = "tgt.flags.rsv" /\ "decode_masks_unnamed_flags" \in Dev)
   \/ cls \in {"sec.flags", "sec.num"} /\ scope.sec_meta
   \/ cls = "other.meta" /\ scope.oth_meta
   \/ cls = "other.data" /\ scope.oth_btsd
